@@ -40,7 +40,7 @@ _ORIG_SCHED = _loop.Loop.schedule
 class Probe:
     __slots__ = ('k', 'b_step', 'b_total', 'before', 'acts', 'scheds', 'record',
                  'step_time', 'step_count', 'max_step', 'record_sched',
-                 'monotone_ok', 'last_time', 'loop', 'total')
+                 'monotone_ok', 'last_time', 'loop', 'total', 'on_end')
 
     def __init__(self, b_step=20000, b_total=200000, before=None, record=False,
                  record_sched=False):
@@ -59,6 +59,7 @@ class Probe:
         self.last_time = None
         self.loop = None
         self.total = 0
+        self.on_end = None      # called when the observed event loop stops (before usim unwinds what is left)
 
 
 import threading as _threading
@@ -119,8 +120,22 @@ def _schedule(self, target, signal=None, *, delay=None, at=None):
     return _ORIG_SCHED(self, target, signal, delay=delay, at=at)
 
 
+def _run_events(self):
+    try:
+        return _ORIG_EVENTS(self)
+    finally:
+        # the event loop has stopped; what follows (usim unwinding activities that are still suspended) is clean-up
+        _STACK = _TLS.stack
+        if _STACK and _STACK[-1].loop is self and _STACK[-1].on_end is not None:
+            _STACK[-1].on_end()
+        elif getattr(_TLS, 'nested_end', None):
+            _TLS.nested_end[-1]()       # (a nested simulation started by the program)
+
+
+_ORIG_EVENTS = _loop.Loop._run_events
 _loop.Loop._run_coroutine = _run_coroutine
 _loop.Loop.schedule = _schedule
+_loop.Loop._run_events = _run_events
 
 
 def _alarm(signum, frame):
